@@ -2,6 +2,7 @@ import Lean.Data.Json
 import NGF.Model.StatusPrep
 import NGF.Model.StatusJudge
 import NGF.Model.HandlerStatus
+import NGF.Model.PipelineStatusTie
 import NGF.Model.Proto
 /-
 Driver entry for C07. Every input line is one JSON object written by harness/c07 (see run.go):
@@ -9,6 +10,9 @@ Driver entry for C07. Every input line is one JSON object written by harness/c07
   `model` : run `StatusPrep.prepare` on "sum" and compare with "st":  `ok` | `diff <what>;…`
   `judge` : evaluate the property (`StatusJudge.judge`) on objs + real conf + real statuses:
             `ok` | `skip <why>` | `fail <tag>;<tag>…`
+  `fragment` : lines that carry "flat" (the flat scenario of harness/c02.Flatten): `PipelineStatusTie.toFragmentV` gives the
+            `Pipeline.Scenario`; `PipelineStatus.routeParentStatuses` / `gatewayStatus` / ignored Gateways against "st":
+            `skip` | `out <why outside the fragment>` | `ok <stats>` | `diff <stats> ## <what>`
 Undecodable input answers `bad-op <error>`.
 -/
 namespace NGF.C07
@@ -276,13 +280,127 @@ def judgeLine (line : String) : String :=
           let f := judge i
           if f.isEmpty then "ok" else "fail " ++ ";".intercalate f
 
+/-! ### fragment stream: `PipelineStatus` (statuses from the Pipeline scenario) against the real statuses -/
+
+namespace Flat
+open NGF.Spec.GatewayAPI
+
+def str (j : Json) (k : String) : Except String String := do (← j.getObjVal? k).getStr?
+def nat (j : Json) (k : String) : Except String Nat := do (← j.getObjVal? k).getNat?
+def int (j : Json) (k : String) : Except String Int := do (← j.getObjVal? k).getInt?
+def bool (j : Json) (k : String) : Except String Bool := do (← j.getObjVal? k).getBool?
+def arr (j : Json) (k : String) : Except String (List Json) := do
+  match j.getObjVal? k with
+  | .ok v => if v.isNull then pure [] else return (← v.getArr?).toList
+  | .error _ => pure []
+def strs (j : Json) (k : String) : Except String (List String) := do (← arr j k).mapM (·.getStr?)
+def strMap (j : Json) (k : String) : Except String (List (String × String)) := do
+  match j.getObjVal? k with
+  | .ok (.obj m) => m.toList.mapM fun (a, b) => do pure (a, ← b.getStr?)
+  | _ => pure []
+
+def dKV (j : Json) : Except String KV := do pure ⟨← str j "type", ← str j "name", ← str j "value"⟩
+def dHeader (j : Json) : Except String Header := do pure ⟨← str j "name", ← str j "value"⟩
+
+def dMatch (j : Json) : Except String Match := do
+  pure { ptype := ← str j "ptype", pvalue := ← str j "pvalue", method := ← str j "method",
+         headers := ← (← arr j "headers").mapM dKV, query := ← (← arr j "query").mapM dKV,
+         hasGm := ← bool j "hasGm", gmType := ← str j "gmType", hasService := ← bool j "hasService",
+         service := ← str j "service", hasGMethod := ← bool j "hasGMethod", gmethod := ← str j "gmethod" }
+
+def dFilter (j : Json) : Except String Filter := do
+  pure { type := ← str j "type", present := ← bool j "present", scheme := ← str j "scheme", hostname := ← str j "hostname",
+         hasPort := ← bool j "hasPort", port := ← nat j "port", code := ← nat j "code", pathType := ← str j "pathType",
+         pathValue := ← str j "pathValue", set := ← (← arr j "set").mapM dHeader, add := ← (← arr j "add").mapM dHeader,
+         remove := ← strs j "remove" }
+
+def dBackend (j : Json) : Except String Backend := do
+  pure { group := ← str j "group", kind := ← str j "kind", hasNs := ← bool j "hasNs", ns := ← str j "ns", name := ← str j "name",
+         hasPort := ← bool j "hasPort", port := (← int j "port").toNat, weight := ← int j "weight", nfilters := ← nat j "nfilters" }
+
+def dRule (j : Json) : Except String Rule := do
+  pure { matches_ := ← (← arr j "matches").mapM dMatch, filters := ← (← arr j "filters").mapM dFilter,
+         backends := ← (← arr j "backends").mapM dBackend }
+
+def dParent (j : Json) : Except String NGF.Spec.GatewayAPI.ParentRef := do
+  pure { group := ← str j "group", kind := ← str j "kind", hasNs := ← bool j "hasNs", ns := ← str j "ns", name := ← str j "name",
+         hasSection := ← bool j "hasSection", sectionName := ← str j "section", hasPort := ← bool j "hasPort" }
+
+def dRoute (j : Json) : Except String NGF.Spec.GatewayAPI.Route := do
+  pure { kind := ← str j "kind", ns := ← str j "ns", name := ← str j "name", age := ← int j "age",
+         parents := ← (← arr j "parents").mapM dParent, hostnames := ← strs j "hostnames", rules := ← (← arr j "rules").mapM dRule }
+
+def dListener (j : Json) : Except String NGF.Spec.GatewayAPI.Listener := do
+  pure { name := ← str j "name", port := (← int j "port").toNat, proto := ← str j "proto", hasHost := ← bool j "hasHost",
+         host := ← str j "host", hasTls := ← bool j "hasTls", tlsMode := ← str j "tlsMode", tlsOpts := ← nat j "tlsOpts",
+         certs := ← (← arr j "certs").mapM (fun c => do
+           pure ({ group := ← str c "group", kind := ← str c "kind", hasNs := ← bool c "hasNs", ns := ← str c "ns", name := ← str c "name" } : CertRef)),
+         nsFrom := ← str j "from", hasSel := ← bool j "hasSel", selMatch := ← strMap j "selMatch", selExprs := ← nat j "selExprs",
+         hasKinds := ← bool j "hasKinds",
+         kinds := ← (← arr j "kinds").mapM (fun c => do pure (⟨← str c "group", ← str c "kind"⟩ : KindRef)) }
+
+/-- the flat scenario written by `harness/c02.Flatten` (same decoding as Driver/C02) -/
+def dScenario (j : Json) : Except String NGF.Spec.GatewayAPI.Scenario := do
+  pure { cls := ← str j "class", ctlr := ← str j "ctlr",
+         protectedPorts := ← (← arr j "protected").mapM (·.getNat?),
+         gcs := ← (← arr j "gcs").mapM (fun c => do pure (⟨← str c "name", ← str c "ctlr", ← int c "age", ← bool c "params"⟩ : GatewayClass)),
+         gws := ← (← arr j "gws").mapM (fun g => do
+           pure ({ ns := ← str g "ns", name := ← str g "name", cls := ← str g "class", age := ← int g "age",
+                   addresses := ← nat g "addresses", listeners := ← (← arr g "listeners").mapM dListener } : NGF.Spec.GatewayAPI.Gateway)),
+         nss := ← (← arr j "nss").mapM (fun n => do pure (⟨← str n "name", ← strMap n "labels"⟩ : Namespace)),
+         routes := ← (← arr j "routes").mapM dRoute,
+         svcs := ← (← arr j "svcs").mapM (fun v => do
+           pure ({ ns := ← str v "ns", name := ← str v "name",
+                   ports := ← (← arr v "ports").mapM (fun p => do pure (⟨(← int p "port").toNat, ← bool p "ready"⟩ : SvcPort)) } : Svc)),
+         grants := ← (← arr j "grants").mapM (fun g => do
+           pure ({ ns := ← str g "ns",
+                   «from» := ← (← arr g "from").mapM (fun f => do pure (⟨← str f "group", ← str f "kind", ← str f "ns"⟩ : GrantFrom)),
+                   to := ← (← arr g "to").mapM (fun t => do pure (⟨← str t "group", ← str t "kind", ← bool t "hasName", ← str t "name"⟩ : GrantTo)) } : Grant)),
+         secrets := ← (← arr j "secrets").mapM (fun x => do pure (⟨← str x "ns", ← str x "name", ← bool x "ok"⟩ : Secret)) }
+end Flat
+
+/-- `metadata.generation` of the objects of a case (from "objs") -/
+def pGens (line : Json) : Except String (String → String → String → Int) := do
+  let o ← line.getObjVal? "objs"
+  let gws ← (← reqArr o "gateways").mapM fun g => do pure (("Gateway", ← reqStr g "ns", ← reqStr g "name"), ← reqInt g "gen")
+  let rs ← (← reqArr o "routes").mapM fun r => do pure ((← reqStr r "kind", ← reqStr r "ns", ← reqStr r "name"), ← reqInt r "gen")
+  let tab := gws ++ rs
+  pure fun k ns n => (tab.lookup (k, ns, n)).getD 0
+
+/-- `fragment`: `skip` (no flat scenario) | `out <why>` (outside the fragment) | `ok <stats>` | `diff <stats> ## <what>` -/
+def fragmentLine (line : String) : String :=
+  match Json.parse line with
+  | .error e => "bad-op " ++ e
+  | .ok j =>
+    match optField j "flat" with
+    | none => "skip"
+    | some fj =>
+      if (optField j "panic").isSome then "skip" else
+      match Flat.dScenario fj, pPrepared j, pGens j, reqBool j "reloadErr" with
+      | .ok flat, .ok real, .ok gens, .ok rerr =>
+        match NGF.PipelineStatusTie.toFragmentV flat with
+        | .error why => "out " ++ why
+        | .ok fs =>
+          if !NGF.PipelineStatus.statusOK fs then "out statusOK" else
+          let same := match NGF.PipelineTie.toFragment flat with
+            | .ok fs0 => if toString (repr fs0) == toString (repr fs) then "same" else "CHANGED"
+            | .error _ => "ext"
+          let rep := NGF.PipelineStatusTie.compareFragment fs rerr gens real
+          let rep := if same == "CHANGED" then { rep with diffs := rep.diffs ++ ["toFragmentV differs from toFragment on a scenario toFragment accepts"] } else rep
+          rep.render ++ s!" inFragment={NGF.Pipeline.inFragment fs} view={same}"
+      | .error e, _, _, _ => "bad-op flat: " ++ e
+      | _, .error e, _, _ => "bad-op st: " ++ e
+      | _, _, .error e, _ => "bad-op objs: " ++ e
+      | _, _, _, .error e => "bad-op reloadErr: " ++ e
+
 def driver (args : List String) : IO UInt32 := do
   let stdin ← IO.getStdin
   let stdout ← IO.getStdout
   match args with
   | ["model"] => NGF.Proto.forEachLine stdin fun l => stdout.putStrLn (modelLine l)
   | ["judge"] => NGF.Proto.forEachLine stdin fun l => stdout.putStrLn (judgeLine l)
-  | _ => IO.eprintln "usage: C07 model|judge"; return 2
+  | ["fragment"] => NGF.Proto.forEachLine stdin fun l => stdout.putStrLn (fragmentLine l)
+  | _ => IO.eprintln "usage: C07 model|judge|fragment"; return 2
   return 0
 
 end NGF.C07
